@@ -423,15 +423,13 @@ impl RdfPlanner {
                 LogicalExpression::Variable(name) => {
                     if let Some(&col_idx) = variable_columns.get(name) {
                         projections.push(ProjectExpr::Column(col_idx));
-                        output_columns.push(proj.alias.clone().unwrap_or_else(|| name.clone()));
-                        // Strings of RDF terms, or the number an aggregate below produced
-                        output_types.push(LogicalType::Any);
                     } else {
-                        return Err(Error::Internal(format!(
-                            "Variable '{}' not found in input columns",
-                            name
-                        )));
+                        // A variable the pattern does not bind is unbound in every solution
+                        projections.push(ProjectExpr::Constant(Value::Null));
                     }
+                    output_columns.push(proj.alias.clone().unwrap_or_else(|| name.clone()));
+                    // Strings of RDF terms, or the number an aggregate below produced
+                    output_types.push(LogicalType::Any);
                 }
                 _ => {
                     // For non-variable expressions, we need to evaluate them
